@@ -44,6 +44,12 @@ Fold(w) == CASE w = "ID" -> "id" [] w = "MSG" -> "msg" [] w = "Tag" -> "tag" [] 
               [] w = "SetVar" -> "setvar" [] w = "Severity" -> "severity" [] w = "multiMatch" -> "multimatch"
               [] w = "Block" -> "block" [] w = "SECRULE" -> "secrule" [] w = "SecRule" -> "secrule" [] w = "SecAction" -> "secaction" [] OTHER -> w
 
+UpperDir(w) == CASE w = "SecMarker" -> "SECMARKER" [] w = "SecRuleRemoveById" -> "secruleremovebyid" [] w = "SecRuleRemoveByTag" -> "SecRuleREMOVEByTag"
+                 [] w = "SecRuleEngine" -> "SECRULEENGINE" [] w = "SecRequestBodyLimit" -> "secrequestbodylimit" [] OTHER -> w
+FoldDir(w) == CASE w \in {"SecMarker", "SECMARKER"} -> "secmarker" [] w \in {"SecRuleRemoveById", "secruleremovebyid"} -> "secruleremovebyid"
+                [] w \in {"SecRuleRemoveByTag", "SecRuleREMOVEByTag"} -> "secruleremovebytag" [] w \in {"SecRuleEngine", "SECRULEENGINE"} -> "secruleengine"
+                [] w \in {"SecRequestBodyLimit", "secrequestbodylimit"} -> "secrequestbodylimit" [] OTHER -> w
+
 (* ---------------------------------------------------------------- descriptions and rendering *)
 \* target: [col, neg, count, kk \in {"none","plain","rx","qrx"}, key : token sequence]
 \* op:     [neg, name ("" = implicit rx), arg : token sequence]
@@ -241,6 +247,17 @@ ReadAll(toks) == ReadLines(LogicalLines(toks))
 
 \* a text holding exactly one rule
 Read(toks) == LET ls == LogicalLines(toks) IN IF Len(ls) # 1 THEN Rej("not-one-logical-line") ELSE ReadRuleLine(ls[1])
+
+\* a directive with one argument; the argument may be written between double quotes whatever its length
+RenderDir(dd, st) ==
+   Indent(st) \o <<P(IF st.upDir THEN UpperDir(dd.dir) ELSE dd.dir, "w"), P(SP, "sp")>>
+   \o (IF st.quoteAll THEN <<P(DQ, "d.open")>> \o Content(dd.arg) \o <<P(DQ, "d.close")>> ELSE Content(dd.arg))
+ReadDirLine(line) ==
+  IF Len(line) < 3 \/ line[2] # SP THEN Rej("not-a-directive-line")
+  ELSE LET a0 == Trim(SubSeq(line, 3, Len(line)))
+           a  == IF Len(a0) >= 2 /\ a0[1] = DQ /\ Last(a0) = DQ THEN SubSeq(a0, 2, Len(a0) - 1) ELSE a0
+       IN Ok([dir |-> FoldDir(line[1]), arg |-> a])
+ReadDir(toks) == LET ls == LogicalLines(toks) IN IF Len(ls) # 1 THEN Rej("not-one-logical-line") ELSE ReadDirLine(ls[1])
 
 \* several rules one after the other, each on its own (possibly continued, indented, commented) lines
 RECURSIVE RenderAll(_, _)
